@@ -418,6 +418,13 @@ func (f *frame) callContract(st *State, callee *ssa.Function, cc *Contract, args
 			vc.assumeUnder(st.reach, g)
 			continue
 		}
+		if parts := conjuncts(g); len(parts) > 3 && len(g) > 1500 {
+			// a large conjunction is discharged conjunct by conjunct (smaller queries)
+			for k, part := range parts {
+				vc.obligeAndAssume(st, fmt.Sprintf("%s.c%d", kind, k), part, fmt.Sprintf("precondition of %s (conjunct %d): %s", short, k, r.Src), pos)
+			}
+			continue
+		}
 		vc.obligeAndAssume(st, kind, g, "precondition of "+short+": "+r.Src, pos)
 	}
 	if cc.EnsuresPanic {
